@@ -466,4 +466,76 @@ example : exSetup.producers > 0 ∧ isReading exSetup.pphase = true ∧ exSetup.
     reqTasks exSetup = 8 ∧ setupTasks exSetup = 1 ∧ exSetup.devices.any inSetupRound = true := by decide
 example : isDone (run exSetup (burstSchedule 8)).1.closing = true ∧ tasks (run exSetup (burstSchedule 8)).1 = 0 := by decide
 
+/-! ### the explicit time bound, task names, frame-version announcements, the object used again -/
+
+/-- **close() time bound** (virtual time, the drains case): close() called at `s.now` has returned at some `t1` with
+`t1 - s.now ≤ |writeQ| · READER_TIMEOUT + WRITER_TIMEOUT ≤ (|writeQ| + 1) · ioTimeout` (`ioTimeout_eq`: 10 s) - one read time-out per queued request
+(each goes out when a frame arrives, which the `Drains` controller sends before the read deadline), one write time-out
+for the transport's `wait_closed()`.  The harness measures every returning close() against this bound (and against
+its generalisation with the failed opens and closed transports of a history) -/
+theorem close_time_bound {s : St} (hs : Reachable s) (hr : AtRest s) (gaps : List Nat) (hd : Drains s gaps) :
+    ∃ t1, (run s (closeSchedule gaps)).1.closing = .done s.now t1 ∧
+      t1 ≤ s.now + (s.writeQ.length * readerTO + writerTO) ∧ t1 ≤ s.now + (s.writeQ.length + 1) * ioTimeout := by
+  have hio : ioTimeout = readerTO ∧ ioTimeout = writerTO := by decide
+  cases hd with
+  | empty h0 =>
+    obtain ⟨t1, h1, h2, _⟩ := close_idle hr h0
+    refine ⟨t1, h1, by omega, ?_⟩
+    rw [Nat.add_mul, Nat.one_mul]; rw [← hio.2] at h2; omega
+  | sending dl gaps hp hrd hdl hk hdr hns hq hl hg =>
+    obtain ⟨t1, h1, h2, _⟩ := close_draining hs hr dl gaps hp hrd hdl hk hdr hns hq hl hg
+    refine ⟨t1, h1, h2, ?_⟩
+    rw [Nat.add_mul, Nat.one_mul]; rw [← hio.1, ← hio.2] at h2; omega
+
+/-- the request kinds of the frame-version dimension are the ones the harness announces -/
+theorem verKinds_eq : verKinds = [64, 48] := by decide
+
+/-- **an announced version that is already stored queues nothing** (`has_frame_version`): the entry is skipped -/
+theorem version_known_queues_nothing (acc : List (Nat × Nat) × List Nat) (p : Nat × Nat)
+    (h : acc.1.lookup p.1 = some p.2) : verEntry acc p = acc := by
+  simp [verEntry, h]
+
+/-- ... and once an entry of a followed kind has been handled its version IS stored - so the same table announced
+again (a controller that keeps broadcasting and never answers) asks for nothing: the write queue cannot grow by
+re-queueing (what seeded C12-m9 breaks; the harness's queue-growth clause is this statement on the implementation) -/
+theorem version_learned (acc : List (Nat × Nat) × List Nat) (p : Nat × Nat) (hk : verKinds.contains p.1 = true) :
+    (verEntry acc p).1.lookup p.1 = some p.2 := by
+  have hk' : p.1 ∈ verKinds := by simpa using hk
+  unfold verEntry
+  by_cases h : acc.1.lookup p.1 = some p.2
+  · simp [hk', h]
+  · simp [hk', h, setVer, List.lookup]
+
+/-- **every live task has one of the eight coroutine names, and they add up**: the per-name prediction the harness
+compares `asyncio.all_tasks()` with sums to `tasks` plus the children of `Queues.join` while close() waits -/
+theorem taskNames_total (s : St) : ((taskNames s).map (·.2)).sum = tasks s + joinTasks s := by
+  simp only [taskNames, List.map_cons, List.map_nil, List.sum_cons, List.sum_nil, tasks, lostTasks, deviceTasks, connTasks]
+  cases hr : s.recon with
+  | idle => simp [reconProtoTasks, reconOwner]; omega
+  | wclosing d => simp [reconProtoTasks, reconOwner]; omega
+  | attempting d o => cases o <;> simp [reconProtoTasks, reconOwner] <;> omega
+  | backoff d o => cases o <;> simp [reconProtoTasks, reconOwner] <;> omega
+
+/-- **close() twice / close() after reopen**: the second close() on a connection that close() left clean is the
+`close_idle` case again - it returns at once (nothing queued, nothing running) -/
+example :
+    let s1 := (run (init 3 true []) [.connect, .prodStart, .feed (.pw 69), .take, .park (.dev 69), .close, .shutdownRun]).1
+    isDone s1.closing = true ∧ tasks s1 = 0 ∧
+    (let s2 := (run s1 [.reopen, .close, .shutdownRun]).1
+     isDone s2.closing = true ∧ tasks s2 = 0 ∧ s2.wopen = false) ∧
+    (let s3 := (run s1 [.reopen, .connect, .prodStart, .feed (.sensors 1 1), .take, .park (.mixer 0)]).1
+     s3.connected = true ∧ s3.consumers = 3 ∧ tasks s3 = 5) := by decide
+
+/-- close() before the first connect(): returns at once -/
+example : isDone (run (init 3 true []) [.close, .shutdownRun]).1.closing = true ∧
+    tasks (run (init 3 true []) [.close, .shutdownRun]).1 = 0 := by decide
+
+/-- daf0ebe in the machine: a retry task created while close() waits (the first attempt failed inside the loss handler,
+its back-off ends during `Queues.join` behind a slow subscriber) is cancelled when close() returns: nothing is left -/
+example :
+    let r := (run (init 2 true [.ok .ok .ok, .err, .err, .ok .ok .ok])
+      [.connect, .prodStart, .gate 69, .feed (.pw 69), .take, .readFault, .lostRun, .close, .advance 20000,
+       .tick .backoffEnd, .release, .shutdownRun]).1
+    isDone r.closing = true ∧ tasks r = 0 ∧ r.recon = .idle := by decide
+
 end PlumVerif.C12
